@@ -17,6 +17,14 @@
      f'...{e}...', a + b, s.startswith(t), s[len(t):], ==, !=, is, is not, not, and, or   on str / None / bool / objects
      tags.a(label, href=u, class_='internal-link'), tags.transparent(label), tag(title=t)   the three tag shapes
      x.system.msg(...)                  logging: no effect on the result
+     c_a if c else c_b                  ECond;  len(s), i + j, s[i:j] / s[i:] / s[:j] on str with non-negative int bounds
+                                        (ELen, EAddI, ESlice: firstn (j - i) (skipn i s));  tag(label) re-labelled: ETagLabel
+                                        (how the translator renders `attrs = {'href': u, 'class_': 'internal-link'}`,
+                                        `attrs['title'] = t`, `tags.a(label, **attrs)`)
+     for x in e: body                   SFor: the body once per element, in order, stopping at the first return / error
+     x.<generator method>()             EChain: x, its parent, the parent of that, ... up to the root -- for a generator
+                                        method of Documentable that the translator has RUN on its fixture objects and found
+                                        to yield exactly that chain (stated assumption: it does so on every object)
    Attribute / method dispatch: x.privacyClass runs Module.privacyClass for modules and packages and
    Documentable.privacyClass otherwise (no other class overrides it: checked by the translator); super().privacyClass in
    Module is Documentable.privacyClass; fullName / isVisible / isPrivate / page_object / url are not overridden. *)
@@ -30,6 +38,7 @@ Inductive fname : Type :=
 Inductive ival : Type :=
 | VNone
 | VBool (b : bool)
+| VInt (n : nat)
 | VStr (t : text)
 | VObj (i : nat)
 | VPriv (p : privacy)
@@ -60,7 +69,13 @@ Inductive iexpr : Type :=
 | ESkipLen (a b : iexpr)                  (* a[len(b):] *)
 | ETagA (label href : iexpr)              (* tags.a(label, href=href, class_='internal-link') *)
 | ETagPlain (label : iexpr)               (* tags.transparent(label) *)
-| ETagTitle (tag title : iexpr).          (* tag(title=title) *)
+| ETagTitle (tag title : iexpr)           (* tag(title=title) *)
+| ETagLabel (tag label : iexpr)           (* the tag with this label: tags.a(label, **attrs) *)
+| ECond (c a b : iexpr)                   (* a if c else b *)
+| ELen (e : iexpr)                        (* len(e) on a str *)
+| EAddI (a b : iexpr)                     (* int + int *)
+| ESlice (e : iexpr) (lo hi : option iexpr)   (* e[lo:hi] on a str *)
+| EChain (e : iexpr).                     (* e, e.parent, e.parent.parent, ...: a generator method found to yield that chain *)
 
 Inductive istmt : Type :=
 | SSkip
@@ -69,6 +84,7 @@ Inductive istmt : Type :=
 | SIf (e : iexpr) (a b : istmt)
 | SReturn (e : iexpr)
 | SAssert (e : iexpr)
+| SFor (x : var) (e : iexpr) (body : istmt)   (* for x in e: body *)
 | SLog.                                   (* x.system.msg(...) *)
 
 Definition env := var -> option ival.
@@ -79,6 +95,7 @@ Definition truthy (v : ival) : bool :=
   match v with
   | VNone => false
   | VBool b => b
+  | VInt n => negb (Nat.eqb n 0)
   | VStr t => negb (is_nil t)
   | VList l => negb (is_nil l)
   | VObj _ | VPriv _ | VLoc _ | VTag _ _ _ => true
@@ -92,6 +109,7 @@ Fixpoint veq (a b : ival) : bool :=
   match a, b with
   | VNone, VNone => true
   | VBool x, VBool y => Bool.eqb x y
+  | VInt x, VInt y => Nat.eqb x y
   | VStr x, VStr y => text_eqb x y
   | VObj x, VObj y => Nat.eqb x y
   | VPriv x, VPriv y => priv_eqb x y
@@ -115,6 +133,17 @@ Definition bind (x : result) (k : ival -> result) : result :=
   match x with Val v => k v | Err => Err | OutOfFuel => OutOfFuel end.
 
 Definition str_of (v : ival) : option text := match v with VStr t => Some t | _ => None end.
+
+(* for x in l: body   (step v en = the body with x bound to v) *)
+Fixpoint for_loop (step : ival -> env -> sres) (l : list ival) (en : env) : sres :=
+  match l with
+  | [] => SNorm en
+  | v :: l' => match step v en with SNorm en' => for_loop step l' en' | x => x end
+  end.
+
+(* s[lo:hi] for 0 <= lo, hi *)
+Definition slice (s : text) (lo : nat) (hi : option nat) : text :=
+  match hi with Some h => firstn (h - lo) (skipn lo s) | None => skipn lo s end.
 
 Section Interp.
   Variable quote : text -> text.
@@ -187,6 +216,26 @@ Section Interp.
             | ETagPlain l => bind (eval en l) (fun x => Val (VTag x None None))
             | ETagTitle t ti => bind (eval en t) (fun x => bind (eval en ti) (fun y =>
                            match x with VTag l h _ => Val (VTag l h (Some y)) | _ => Err end))
+            | ETagLabel t l => bind (eval en t) (fun x => bind (eval en l) (fun y =>
+                           match x with VTag _ h ti => Val (VTag y h ti) | _ => Err end))
+            | ECond c a b => bind (eval en c) (fun x => if truthy x then eval en a else eval en b)
+            | ELen a => bind (eval en a) (fun x => match x with VStr t => Val (VInt (length t)) | _ => Err end)
+            | EAddI a b => bind (eval en a) (fun x => bind (eval en b) (fun y =>
+                           match x, y with VInt u, VInt w => Val (VInt (u + w)) | _, _ => Err end))
+            | ESlice a lo hi =>
+                bind (eval en a) (fun x =>
+                bind (match lo with Some l => eval en l | None => Val (VInt 0) end) (fun l =>
+                bind (match hi with Some h => eval en h | None => Val VNone end) (fun h =>
+                  match x, l, h with
+                  | VStr t, VInt i, VInt j => Val (VStr (slice t i (Some j)))
+                  | VStr t, VInt i, VNone => Val (VStr (slice t i None))
+                  | _, _, _ => Err
+                  end)))
+            | EChain a => bind (eval en a) (fun v => match v with
+                           | VObj i => match get r i with
+                                       | Some _ => Val (VList (map VObj (chain_up (fuel_of r) r i)))
+                                       | None => Err end
+                           | _ => Err end)
             end in
       let exec :=
           fix exec (en : env) (s : istmt) {struct s} : sres :=
@@ -200,6 +249,10 @@ Section Interp.
             | SReturn e => match eval en e with Val v => SRet v | Err => SErr | OutOfFuel => SFuel end
             | SAssert e => match eval en e with
                            | Val v => if truthy v then SNorm en else SErr        (* AssertionError *)
+                           | Err => SErr | OutOfFuel => SFuel end
+            | SFor x e body => match eval en e with
+                           | Val (VList l) => for_loop (fun v en' => exec (setv en' x v) body) l en
+                           | Val _ => SErr
                            | Err => SErr | OutOfFuel => SFuel end
             end in
       match exec args (code f) with
